@@ -627,6 +627,8 @@ def run_fill(model, sc: Scenario, ctx=None):
                 return BoundLib(f"boolmat.{name}", self)
             if name == "abs":
                 return BoundLib("identity_method", self)        # the zero test below is on magnitudes anyway
+            if name == "dtypes":
+                return DtypesV(self.names)
             raise ev.err(f"attribute {name} of a block of columns", node, mod)
 
         def sym_subscript(self, ev, idx, n, mod):
@@ -657,6 +659,84 @@ def run_fill(model, sc: Scenario, ctx=None):
                 out.is_bool = True
                 return out
             raise ev.err("comparison of a block of columns that is not a zero test", n, mod)
+
+    class ColDtype:
+        """the common element type of these columns of the table (int64 for a column written without a decimal point, float64 otherwise - the reader decides per column)"""
+
+        def __init__(self, names):
+            self.names = frozenset(names)
+
+    class DtypesV:
+        """frame.dtypes: one element type per column"""
+
+        def __init__(self, names):
+            self.names = list(names)
+
+        def sym_getattr(self, ev, name, node, mod):
+            if name in ("iloc", "values", "loc"):
+                return self
+            if name in ("to_numpy", "tolist", "to_list"):
+                return BoundLib("identity", Tup([ColDtype([n_]) for n_ in self.names], "list"))
+            raise ev.err(f"attribute {name} of frame.dtypes", node, mod)
+
+        def sym_subscript(self, ev, idx, n, mod):
+            if is_sym(idx) and idx.is_Integer:
+                try:
+                    return ColDtype([self.names[int(idx)]])
+                except IndexError:
+                    raise RaisedV("IndexError")
+            if isinstance(idx, str) and idx in self.names:
+                return ColDtype([idx])
+            raise ev.err("subscript of frame.dtypes", n, mod)
+
+        def sym_iter(self, ev, n, mod):
+            return [ColDtype([n_]) for n_ in self.names]
+
+    def result_type(ev, a, k):
+        if a and all(isinstance(x, ColDtype) for x in a):
+            out = set()
+            for x in a:
+                out |= x.names
+            return ColDtype(out)
+        raise AnalysisError("numpy.result_type of operands other than column element types")
+
+    class RowsMat(DataMat):
+        """numpy.empty / zeros((k, n_volumes), dtype): k rows to be filled in, each with the values of one column"""
+
+        def __init__(self, k_, dtype):
+            super().__init__([sp.Symbol(f"UNINITIALISED_ROW_{i}") for i in range(k_)])
+            self.dtype_tok = dtype
+
+        def sym_store(self, ev, idx, v, t, mod):
+            if isinstance(idx, Tup) and len(idx.items) == 2 and isinstance(idx.items[1], SliceV) and idx.items[1].lo is None and idx.items[1].hi is None:
+                idx = idx.items[0]
+            if not (is_sym(idx) and idx.is_Integer and 0 <= int(idx) < len(self.rows)):
+                raise ev.err("store into the data block at something other than one constant row", t, mod)
+            v = as_sym(v)
+            if isinstance(self.dtype_tok, ColDtype):
+                stored = {str(s_)[4:] for s_ in v.free_symbols if str(s_).startswith("COL_")}
+                foreign = sorted(stored - set(self.dtype_tok.names))
+                if foreign:
+                    e = RaisedV("IntegerDtype", f"{mod.rel}:{getattr(t, 'lineno', 0)}" if mod is not None else "")
+                    e.detail = (f"the block that collects the supplied columns is allocated with the element type of column(s) {sorted(self.dtype_tok.names)} only, and column {foreign[0]!r} is "
+                                f"stored into it: when {sorted(self.dtype_tok.names)[0]!r} is written without decimal points (read as integers) the values of {foreign[0]!r} are truncated to whole "
+                                f"numbers - supplied values move, and the outcome depends on integer-versus-float column type and on column order")
+                    raise e
+            self.rows[int(idx)] = v
+
+    def np_empty(ev, a, k):
+        shape = a[0]
+        dt = k.get("dtype", a[1] if len(a) > 1 else None)
+        k.get("order")
+        if isinstance(shape, Tup) and len(shape.items) == 2 and is_sym(shape.items[0]) and shape.items[0].is_Integer and is_sym(shape.items[1]) \
+                and not shape.items[1].is_number:
+            if not (dt is None or isinstance(dt, ColDtype) or "float" in repr(getattr(dt, "name", dt)).lower()):
+                raise AnalysisError(f"data block allocated with element type {dt!r}")
+            return RowsMat(int(shape.items[0]), dt)
+        from .sym import LIB
+        if dt is not None and not ("float" in repr(getattr(dt, "name", dt)).lower()):
+            raise AnalysisError(f"array allocated with element type {dt!r}")
+        return LIB["numpy.zeros"](ev, [shape], {}, None, None)
 
     class FlagSeries:
         """one truth value per column of a block (the result of .any(axis=0) / .all(axis=0)), labelled by the column names"""
@@ -751,6 +831,7 @@ def run_fill(model, sc: Scenario, ctx=None):
         "predlist.all": predlist_all,
         "numpy.concatenate": concatenate, "numpy.vstack": concatenate, "numpy.row_stack": concatenate, "numpy.repeat": repeat, "numpy.tile": tile, "sympy.matrix2numpy": matrix2numpy,
         "numpy.linalg.lstsq": lstsq, "numpy.allclose": allclose, "numpy.sum": np_sum,
+        "numpy.empty": np_empty, "numpy.zeros": np_empty, "numpy.result_type": result_type,
         "numpy.isclose": isclose, "boolmat.any": boolred("any"), "boolmat.all": boolred("all"),
         "pandas.DataFrame": dataframe, "labelledcol.bare": lambda ev, a, k: (k.all(), a[0].value)[1],
         "solmat.transpose": lambda ev, a, k: SolMatT(a[0].rows),
@@ -776,6 +857,8 @@ def run_fill(model, sc: Scenario, ctx=None):
     try:
         out = ev.call_def(f, mod, FILL, [table, sc.system], kwargs)
     except RaisedV as e:
+        if e.exc_name == "IntegerDtype":
+            raise           # not a refusal of fill_cij: a finding about the code (wrong for integer-typed columns), reported as such by the driver
         return "raise", e.exc_name, table, original, ev
     return "ok", out, table, original, ev
 
